@@ -15,6 +15,7 @@ What the proof leaves open are three classes, each an open finding with a `decid
 -/
 import Restful.Lemmas.Agree
 import Restful.Lemmas.StateShape
+import Restful.Lemmas.Translated
 namespace Restful
 namespace Props
 variable (E : ReEnv)
@@ -74,6 +75,13 @@ theorem C18_ranksAgree_of_unique_eligible (cfg : Config) (hwf : Spec.wfCommon cf
 -- also: Restful.StateShape.globals_shape
 -- also: Restful.StateShape.consts_shape
 -- also: Restful.StateShape.routing_shape
+
+/-! The regenerated tie (tools/gotrans → Gen/Translated.lean, Lemmas/Translated.lean): the decision
+    functions this property's model contains ARE the ones translated from the Go sources on this run. -/
+-- also: Restful.Tie.curly_less
+-- also: Restful.Tie.jsr_route_less
+-- also: Restful.Tie.jsr_dispatcher_less
+-- also: Restful.Tie.sort_call_sites
 
 end Props
 end Restful
